@@ -280,7 +280,7 @@ def run(ctx):
     # the model, which predicts the value seen by EVERY fetch_add (extract / anti / unprocess), every re-queue, every release and the
     # leak count; the counts below are functions of the seed only (unlike the free-running traces above, which depend on OS timing)
     agg = runlib.run_matrix(ctx, "flag word of every message at every fetch_add, queue membership, frees (scheduled full runs)",
-                            24, 600, oracle_keys=("s_double_free",), threads=(2, 3, 4), ckpts=(1, 2, 3, 7))
+                            24, 300, oracle_keys=("s_double_free",), threads=(2, 3, 4), ckpts=(1, 2, 3, 7))
     if agg:
         ctx.coverage["evaluations"] = agg.tot.get("msgs", 0)
         ctx.coverage["distinct_nontrivial"] = agg.tot.get("antis", 0)
